@@ -39,7 +39,7 @@ Theorem step_frame : forall st o j, (j < List.length st)%nat -> target o <> Some
   nth_error (fst (step st o)) j = nth_error st j.
 Proof.
   intros st o j Hj Ht Harg.
-  destruct o as [i|i c|i c|i c|i c|i|i p|i f|i p|i n|i|i n|z n|z n|i k|m]; cbn [target arg] in Ht, Harg;
+  destruct o as [i|i c|i c|i c|i c|i|i p|i f|i p|i n|i|i n|z n|z n|i k|m|e]; cbn [target arg] in Ht, Harg;
     try (assert (Hne : i <> j) by congruence); cbn [step].
   - destruct (nth_error st i) as [[s|s u|]|]; try reflexivity. unfold do_take.
     destruct (nth_error st i) as [[s1|s1 u1|]|]; try reflexivity.
@@ -69,6 +69,7 @@ Proof.
     destruct (give_frame _ _ _ _ j Eg Hk) as [A B].
     rewrite apply_t_frame; [exact A|lia|exact Hne].
   - reflexivity.
+  - reflexivity.
 Qed.
 
 Lemma apply_t_length : forall st i t, (List.length st <= List.length (fst (apply_t st i t)))%nat.
@@ -87,7 +88,7 @@ Qed.
 Lemma step_length : forall st o, (List.length st <= List.length (fst (step st o)))%nat.
 Proof.
   intros st o.
-  destruct o as [i|i c|i c|i c|i c|i|i p|i f|i p|i n|i|i n|z n|z n|i k|m]; cbn [step];
+  destruct o as [i|i c|i c|i c|i c|i|i p|i f|i p|i n|i|i n|z n|z n|i k|m|e]; cbn [step];
     try apply apply_t_length; try (cbn; lia).
   - destruct (nth_error st i) as [[s|s u|]|]; try (cbn; lia). unfold do_take.
     destruct (nth_error st i) as [[s1|s1 u1|]|]; try (cbn; lia).
@@ -133,7 +134,7 @@ Theorem step_local : forall st1 st2 o i, target o = Some i -> arg o = None ->
   snd (step st1 o) = snd (step st2 o).
 Proof.
   intros st1 st2 o i Ht Harg Hn Hl.
-  destruct o as [k|k c|k c|k c|k c|k|k p|k f|k p|k n|k|k n|z n|z n|k k2|m]; cbn [target arg] in Ht, Harg;
+  destruct o as [k|k c|k c|k c|k c|k|k p|k f|k p|k n|k|k n|z n|z n|k k2|m|e]; cbn [target arg] in Ht, Harg;
     try discriminate Harg; inversion Ht; subst k; cbn [step]; unfold do_take, apply_t, give; rewrite <- ?Hn, ?Hl.
   - destruct (nth_error st1 i) as [[s|s u|]|]; try reflexivity. destruct (take_seq CNone s); reflexivity.
   - destruct (nth_error st1 i) as [[s|s u|]|]; try reflexivity. destruct (take_seq c s); reflexivity.
@@ -310,4 +311,8 @@ Qed.
 
 (* the container returned by take / peek is a fresh value: whatever the caller does to it changes no object *)
 Theorem mutating_a_result_changes_nothing : forall st m, step st (OMutateResult m) = (st, OSelf).
+Proof. reflexivity. Qed.
+
+(* a refused call (TypeError / ValueError ...) leaves every object exactly as it was *)
+Theorem refused_call_changes_nothing : forall st e, step st (ORefused e) = (st, ORaise e).
 Proof. reflexivity. Qed.
